@@ -948,10 +948,83 @@ def r5_index_roles(ctx, rid):
     _c16.r1_index_roles(ctx, rid)
 
 
+
+def r6_indexing_dropped_only_for_identity(ctx, rid):
+    """_get_indexed_var_str may return the bare variable for an index *list* (no indexing emitted) only when the list is
+    exactly [0, 1, .., n-1]: with vectorize=True a full-length list that is a permutation must still be applied, otherwise
+    inputs land on the wrong members of the merged population (vectorize=False has scalars and is unaffected)."""
+    import ast as _ast
+    from engine import AnalysisError as _AE
+    from engine.util import call_name as _cn
+    from engine.srcmodel import norm as _norm, walk_shallow as _ws
+    f = ctx.repo.get_func("pyrates/ir/circuit.py", "_get_indexed_var_str")
+    if f.params[:2] != ["var", "idx"]:
+        raise _AE(f"{rid}: signature of _get_indexed_var_str changed")
+    cfg = ctx.cfg(f)
+    # the list branch: statements under `if len(idx) > 0:`
+    branch = [st for st in f.node.body if isinstance(st, _ast.If) and _ast.unparse(st.test).replace(" ", "") == "len(idx)>0"]
+    if len(branch) != 1:
+        raise _AE(f"{rid}: list branch `if len(idx) > 0:` of _get_indexed_var_str not recognised")
+    rets = [n for n in _ast.walk(branch[0]) if isinstance(n, _ast.Return) and isinstance(n.value, _ast.Name) and n.value.id == "var"]
+    if not rets:
+        ctx.ok(rid, f, branch[0], "an index list is always applied (no shortcut)", label="bare variable only for the identity index list")
+        return
+    for r in rets:
+        guards = [d for d in cfg.dominators(r) if isinstance(d, _ast.If) and d is not branch[0] and any(x is r for x in _ast.walk(d))]
+        text = " and ".join(_ast.unparse(g.test) for g in guards)
+        facts = {"guards": [_norm(g) for g in guards]}
+        proof = None
+        for g in guards:
+            t = g.test
+            # (b) whole-list equality forms
+            for c in _ast.walk(t):
+                if isinstance(c, _ast.Compare) and len(c.ops) == 1 and isinstance(c.ops[0], _ast.Eq):
+                    sides = [_ast.unparse(c.left).replace(" ", ""), _ast.unparse(c.comparators[0]).replace(" ", "")]
+                    if any(sd in ("list(idx)", "idx") for sd in sides) and any("range(" in sd and "var_length" in sd for sd in sides):
+                        proof = "list equality with range(var_length)"
+                if isinstance(c, _ast.Call) and _cn(c) == "array_equal" and "idx" in _ast.unparse(c) and "var_length" in _ast.unparse(c):
+                    proof = "array_equal with arange(var_length)"
+                if isinstance(c, _ast.Call) and _cn(c) == "all" and c.args and isinstance(c.args[0], (_ast.GeneratorExp, _ast.ListComp)):
+                    gen = c.args[0]
+                    if "idx" in _ast.unparse(gen.generators[0].iter) and any(isinstance(k, _ast.Compare) and isinstance(k.ops[0], _ast.Eq) for k in _ast.walk(gen.elt)):
+                        proof = "all(element == position)"
+            # (a) flag form: `if identical:` where identical starts True and is cleared by an element-wise != inside a loop over idx
+            if isinstance(t, _ast.Name):
+                flag = t.id
+                inits = [x for x in _ast.walk(branch[0]) if isinstance(x, _ast.Assign) and any(isinstance(tt, _ast.Name) and tt.id == flag for tt in x.targets)]
+                set_true = [x for x in inits if isinstance(x.value, _ast.Constant) and x.value.value is True]
+                set_false = [x for x in inits if isinstance(x.value, _ast.Constant) and x.value.value is False]
+                loops = [l for l in _ast.walk(branch[0]) if isinstance(l, _ast.For) and "idx" in _ast.unparse(l.iter)
+                         and ("var_length" in _ast.unparse(l.iter) or "enumerate" in _ast.unparse(l.iter))]
+                ok_loop = False
+                for l in loops:
+                    for x in set_false:
+                        if any(y is x for y in _ast.walk(l)):
+                            conds = [d for d in _ast.walk(l) if isinstance(d, _ast.If) and any(y is x for y in _ast.walk(d))]
+                            if conds and any(isinstance(k, _ast.Compare) and isinstance(k.ops[0], _ast.NotEq) for k in _ast.walk(conds[0].test)):
+                                ok_loop = True
+                if set_true and set_false and ok_loop:
+                    proof = "element-wise comparison loop"
+        if proof:
+            ctx.ok(rid, f, r, f"indexing is dropped only after an element-wise identity proof ({proof})", facts,
+                   label="bare variable only for the identity index list")
+            continue
+        finite = all(all(isinstance(n, (_ast.Name, _ast.Constant, _ast.Compare, _ast.BoolOp, _ast.BinOp, _ast.Call, _ast.Subscript, _ast.UnaryOp,
+                                         _ast.Load, _ast.And, _ast.Or, _ast.Eq, _ast.Add, _ast.Sub, _ast.USub, _ast.operator, _ast.cmpop, _ast.boolop,
+                                         _ast.unaryop, _ast.expr_context)) for n in _ast.walk(g.test)) for g in guards)
+        if guards and finite:
+            ctx.violation(rid, f, r, f"the bare variable is returned for an index list under `{text}`, which inspects only the length / a few "
+                                     f"elements: a full-length permutation (vectorised nodes addressed in another order) is mistaken for the identity "
+                                     f"and its indexing is dropped", facts, label="bare variable only for the identity index list")
+        else:
+            raise _AE(f"{rid}: guard of `return var` in the list branch not recognised: {text!r}")
+
+
 RULES = [
     ("C04-R1", r1_collapse_guard, 8),
     ("C04-R2", r2_append_ranges, 9),
     ("C04-R3", r3_group_edges, 8),
     ("C04-R4", r4_node_ranges, 4),
     ("C04-R5", r5_index_roles, 30),
+    ("C04-R6", r6_indexing_dropped_only_for_identity, 1),
 ]
